@@ -108,6 +108,7 @@ type WorkerOut struct {
 	WallS       float64           `json:"wall_s"`
 	Infra       []string          `json:"infra_errors"`
 	BubbleErrs  map[string]int    `json:"bubble_errs"`
+	TaskPanics  []string          `json:"task_panics"`
 }
 
 func envInt(k string, d int) int {
@@ -313,6 +314,9 @@ func workerSearch(t *testing.T, def *PropDef) {
 		}
 		// harness trouble is never a verdict
 		for _, p := range ro.Res.Panics {
+			if len(out.TaskPanics) < 5 {
+				out.TaskPanics = append(out.TaskPanics, fmt.Sprintf("run %d task %s (%s): %s\n%s", run, p.Task, p.Site, p.Value, short(p.Stack, 1800)))
+			}
 			if strings.Contains(p.Stack, "/harness/") && !strings.Contains(p.Stack, "lime-go") {
 				out.Infra = append(out.Infra, fmt.Sprintf("run %d: harness panic in task %s: %s\n%s", run, p.Task, p.Value, short(p.Stack, 1500)))
 			}
